@@ -181,6 +181,155 @@ Fixpoint consistent_b (a b : canon) {struct a} : bool :=
   | _, _ => false
   end.
 
+(* ------------------------------------------------------------------ S3: projection of the service data *)
+(* The answer is a projection of the SERVICE's data: at every response position that is read from a
+   protobuf answer, null-ness, list-ness, list lengths, the object chosen for an abstract value and the
+   scalar leaves are those of the protobuf value at the corresponding position.  The correspondence of
+   positions comes from the GraphQL schema and the configured GRPCMapping only (response key -> protobuf
+   field name), never from the compiled plan.  Protobuf conventions of the mapped schema:
+     [T!]!            a repeated field;
+     any other list   a wrapper message { List list = 1 } with List { repeated .. items = 1 }: wrapper or
+                      its [list] unset = null; nested lists nest the wrappers;
+     nullable scalar  a wrapper message with a field "value": unset = null;
+     object           a message field: unset = null;
+     union/interface  a message with a oneof "value" / "instance" whose set member is the object. *)
+Inductive ptype :=
+| PScalar                      (* scalar or enum leaf *)
+| PSkip                        (* not examined here (__typename, values that stem from another call) *)
+| PList (t : ptype)            (* one list level *)
+| PObj (variants : list (list bytes * list (bytes * bytes * ptype))).
+  (* per concrete type: response key, protobuf field name, type *)
+
+Inductive pstep := SKey (k : bytes) | SIdx (i : nat).
+Definition pfail := (list pstep * N)%type.
+
+Definition why_absent_not_null : N := 1.   (* the service sent no value, the answer is not null *)
+Definition why_present_null : N := 2.      (* the service sent a value, the answer is null *)
+Definition why_not_list : N := 3.
+Definition why_length : N := 4.            (* list of another length than the service's *)
+Definition why_scalar : N := 5.            (* another leaf value than the service's *)
+Definition why_not_object : N := 6.
+
+Definition under (s : pstep) (r : option pfail) : option pfail :=
+  match r with None => None | Some (p, w) => Some (s :: p, w) end.
+
+Definition name_instance : bytes := [105;110;115;116;97;110;99;101].
+
+(* the object an abstract value stands for: the set member of the oneof "instance" / "value" *)
+Definition spec_unwrap (m : pmsg) : pmsg :=
+  let pick (name : bytes) :=
+      match assoc name (oneofs_of m) with
+      | Some (Some f) => match field_by_name f m with Some (FMsg m') => Some m' | _ => None end
+      | _ => None
+      end in
+  match pick name_instance with
+  | Some m' => m'
+  | None => match pick name_value with Some m' => m' | None => m end
+  end.
+
+Inductive lview := LNull | LScalars (l : list pscalar) | LMsgs (l : list pmsg) | LOther.
+Definition list_view (v : pfld) : lview :=
+  match v with
+  | FAbsent => LNull
+  | FListS l => LScalars l
+  | FListM l => LMsgs l
+  | FMsg w =>
+    match field_by_num 1 w with
+    | Some FAbsent => LNull
+    | Some (FMsg inner) =>
+      match field_by_num 1 inner with
+      | Some (FListS l) => LScalars l
+      | Some (FListM l) => LMsgs l
+      | _ => LOther
+      end
+    | _ => LOther
+    end
+  | FScalar _ => LOther
+  end.
+
+Definition null_expected (j : json) : option pfail :=
+  match j with JNull => None | _ => Some ([], why_absent_not_null) end.
+
+Fixpoint find_variant {A} (tn : bytes) (vs : list (list bytes * A)) : option A :=
+  match vs with
+  | [] => None
+  | (names, x) :: r => if mem_bytes tn names then Some x else find_variant tn r
+  end.
+
+(* None = the answer is the projection; Some (path, why) = the first position where it is not *)
+Fixpoint proj_chk (em : enum_map) (t : ptype) (v : pfld) (j : json) {struct t} : option pfail :=
+  match t with
+  | PSkip => None
+  | PScalar =>
+    let cmp (s : pscalar) :=
+        match scalar_json em s with
+        | Some x => if json_eqb x j then None else Some ([], why_scalar)
+        | None => None
+        end in
+    match v with
+    | FScalar s => cmp s
+    | FAbsent => null_expected j
+    | FMsg m => match field_by_name name_value m with Some (FScalar s) => cmp s | _ => None end
+    | _ => None
+    end
+  | PList t' =>
+    let items (vs : list pfld) :=
+        match j with
+        | JNull => Some ([], why_present_null)
+        | JArr js =>
+          (fix go (i : nat) (vs : list pfld) (js : list json) {struct vs} : option pfail :=
+             match vs, js with
+             | [], [] => None
+             | x :: vr, y :: jr =>
+               match under (SIdx i) (proj_chk em t' x y) with
+               | Some f => Some f
+               | None => go (S i) vr jr
+               end
+             | _, _ => Some ([], why_length)
+             end) O vs js
+        | _ => Some ([], why_not_list)
+        end in
+    match list_view v with
+    | LOther => None
+    | LNull => null_expected j
+    | LScalars l => items (map FScalar l)
+    | LMsgs l => items (map FMsg l)
+    end
+  | PObj variants =>
+    match v with
+    | FAbsent => null_expected j
+    | FMsg m =>
+      let m' := spec_unwrap m in
+      match j with
+      | JNull => Some ([], why_present_null)
+      | JObj members =>
+        (fix pick (vs : list (list bytes * list (bytes * bytes * ptype))) : option pfail :=
+           match vs with
+           | [] => None
+           | (names, fields) :: r =>
+             if mem_bytes (tname_of m') names then
+               (fix allf (fs : list (bytes * bytes * ptype)) : option pfail :=
+                  match fs with
+                  | [] => None
+                  | (k, pn, ft) :: fr =>
+                    match
+                      match obj_get k members, field_by_name pn m' with
+                      | Some jv, Some fv => under (SKey k) (proj_chk em ft fv jv)
+                      | _, _ => None
+                      end
+                    with
+                    | Some f => Some f
+                    | None => allf fr
+                    end
+                  end) fields
+             else pick r
+           end) variants
+      | _ => Some ([], why_not_object)
+      end
+    | _ => None
+    end
+  end.
+
 (* ------------------------------------------------------------------ builder-level notions *)
 Definition pkey (f : pfield) : bytes := key (meta_of f).
 
